@@ -66,6 +66,24 @@ func main() {
 		enc.Encode(propTable)
 	case "replay":
 		cmdReplay(os.Args[2:])
+	case "mods":
+		// debugging aid: the mod-set a caller assumes for the given functions (heap name, mutate/alloc-only)
+		g := mustLoad()
+		for _, k := range os.Args[2:] {
+			f := g.funcs[k]
+			if f == nil {
+				fmt.Println(k, ": unknown")
+				continue
+			}
+			ms := g.modsetFor(k, g.contracts.Funcs[k], f)
+			for _, n := range sortedKeys(ms) {
+				kind := "alloc-only"
+				if ms[n].mutates {
+					kind = "mutates"
+				}
+				fmt.Printf("%s  %-60s %s\n", k, n, kind)
+			}
+		}
 	default:
 		fmt.Fprintln(os.Stderr, "unknown command", os.Args[1])
 		os.Exit(2)
